@@ -70,19 +70,29 @@ class Ctx:
 
 
 def build_harness(ctx, race=False):
-    """Build the harness against /repo's current working tree. Returns the binary path."""
+    """Build the harness against REPO's current working tree. Returns the binary path.
+    REPO is /repo unless VERIF_REPO points elsewhere (used to try a seeded change in a scratch worktree without
+    touching /repo): then the harness sources are staged with the module replacement rewritten."""
     env = dict(os.environ, **GOENV)
-    shutil.copyfile(os.path.join(REPO, "go.sum"), os.path.join(HARNESS, "go.sum"))
+    src = HARNESS
+    if REPO != "/repo":
+        src = ctx.path("harness-src")
+        if not os.path.isdir(src):
+            shutil.copytree(HARNESS, src)
+            gm = os.path.join(src, "go.mod")
+            txt = open(gm).read().replace("=> /repo", "=> " + REPO)
+            open(gm, "w").write(txt)
+    shutil.copyfile(os.path.join(REPO, "go.sum"), os.path.join(src, "go.sum"))
     out = ctx.path("harness-race" if race else "harness")
     cmd = ["go", "build", "-o", out]
     if race:
         cmd.append("-race")
     cmd.append(".")
     t = time.time()
-    p = subprocess.run(cmd, cwd=HARNESS, env=env, stdout=subprocess.PIPE, stderr=subprocess.STDOUT, text=True)
+    p = subprocess.run(cmd, cwd=src, env=env, stdout=subprocess.PIPE, stderr=subprocess.STDOUT, text=True)
     if p.returncode != 0:
-        raise MachineryError("harness build failed (does /repo still compile?):\n" + p.stdout[-4000:])
-    log("[build] harness%s built in %.1fs" % (" (-race)" if race else "", time.time() - t))
+        raise MachineryError("harness build failed (does the repository still compile?):\n" + p.stdout[-4000:])
+    log("[build] harness%s built in %.1fs%s" % (" (-race)" if race else "", time.time() - t, "" if REPO == "/repo" else " against " + REPO))
     return out
 
 
